@@ -374,6 +374,24 @@ func c15MakeJoinLeave(c *mon.Ctx, r *gen.Rand, sc *simScenario, b *simBranch) {
 			s.all[ev.EventID()] = ev
 		}
 	}
+	// ... and one whose ID has the local server's name behind an empty localpart: no user ID either, so nobody the
+	// local server could let vouch for a join (tenth seeding round, C15-T: the domain alone was compared again)
+	var oddLocal gmsl.PDU
+	if cr, pl0 := rb.state[stKey{"m.room.create", ""}], rb.state[stKey{"m.room.power_levels", ""}]; cr != nil && pl0 != nil && s.t.EventIDFormat >= 2 {
+		odd := "@:" + c15local
+		authIDs := []string{pl0.EventID()}
+		if !s.t.Domainless {
+			authIDs = append([]string{cr.EventID()}, authIDs...)
+		}
+		eb := s.impl.NewEventBuilderFromProtoEvent(&gmsl.ProtoEvent{SenderID: odd, RoomID: s.roomID, Type: "m.room.member", StateKey: strp(odd), PrevEvents: []string{rb.tip}, AuthEvents: authIDs, Depth: rb.depth + 1,
+			Content: []byte(`{"membership":"join"}`)})
+		oid := serverIdentity(c15local)
+		if ev, err := eb.Build(baseTime, spec.ServerName(oid.Server), gmsl.KeyID(oid.KeyID), oid.Priv); err == nil {
+			oddLocal = ev
+			rb.state[stKey{"m.room.member", odd}] = ev
+			s.all[ev.EventID()] = ev
+		}
+	}
 	jrEv, ok := s.propose(rb, "m.room.join_rules", strp(""), s.users[0], ref.O("join_rule", ref.S("restricted"), "allow", ref.A(ref.O("type", ref.S("m.room_membership"), "room_id", ref.S(allowedRoom)))), false)
 	if !ok || jrEv == nil {
 		return
@@ -408,6 +426,9 @@ func c15MakeJoinLeave(c *mon.Ctx, r *gen.Rand, sc *simScenario, b *simBranch) {
 	// user of the local server either
 	if oddMember != nil {
 		cases = append(cases, rcase{"only-a-remote-member-with-a-malformed-id-listed", false, true, true, "", true})
+	}
+	if oddLocal != nil {
+		cases = append(cases, rcase{"only-a-local-member-with-a-malformed-id-listed", false, true, true, "", false})
 	}
 	for _, rcse := range cases {
 		entitled := false
@@ -450,6 +471,10 @@ func c15MakeJoinLeave(c *mon.Ctx, r *gen.Rand, sc *simScenario, b *simBranch) {
 			if rcse.oddRemote && oddMember != nil {
 				c.Count("restricted_make_join_calls_with_a_malformed_remote_member")
 				info.JoinedUsers = append([]gmsl.PDU{oddMember}, info.JoinedUsers...)
+			}
+			if rcse.name == "only-a-local-member-with-a-malformed-id-listed" && oddLocal != nil {
+				c.Count("restricted_make_join_calls_with_a_malformed_local_member")
+				info.JoinedUsers = append([]gmsl.PDU{oddLocal}, info.JoinedUsers...)
 			}
 			if rcse.candidate != "" {
 				info.JoinedUsers = append(info.JoinedUsers, rb.state[stKey{"m.room.member", rcse.candidate}])
